@@ -1,4 +1,5 @@
 import LeptosModel.Model.Reactive
+import LeptosModel.Model.ReactiveOld
 /-!
 # C02 — effects converge to the current state under every task schedule
 -/
@@ -17,7 +18,11 @@ def progNoUntracked (p : Prog) : Bool :=
   p.all fun d => match d with | .sig _ => true | .memo b => b.noUntracked | .eff b => b.noUntracked
 
 /-- **full statement**: at every idle point (no task woken) of every history (writes, reads,
-polls in any order) of every well-formed program, every effect is current. -/
+polls in any order) of every well-formed program, every effect is current.  OPEN (it was FALSE of the code
+before the repair 4084efd, see `C02_lost_update_witness`; after the repair no counterexample is known:
+0 in 63 000 generated programs x histories x schedules).  NOTE: histories with `pause` are excluded by the
+property itself (changes made during a pause are not replayed); `allEffectsCurrent` must then be restricted to
+effects that were not paused - the precise statement to prove is `C02_effects_converge_stmt` below. -/
 def C02_effects_converge_full : Prop :=
   ∀ (p : Prog) (ops : List Op), WF p = true → progNoUntracked p = true →
     ready (run p ops) = [] → allEffectsCurrent p (run p ops) = true
@@ -30,18 +35,34 @@ def c02Prog : Prog :=
 
 def c02Ops : List Op := [.idle, .set 0 2, .idle]
 
+/-- F-C02-1 (repaired in /repo 4084efd): with the effect scheduling code BEFORE the repair (`runOld`) the effect
+never re-ran after `s := 2` and kept `x = 1`; with the repaired code it is current at idle. -/
 theorem C02_lost_update_witness :
     WF c02Prog = true ∧ progNoUntracked c02Prog = true ∧
-    ready (run c02Prog c02Ops) = [] ∧
-    ((run c02Prog c02Ops).get 3).seen.map (fun t => (t.1, t.2.1)) = [(2, 0), (1, 1)] ∧
-    specVal c02Prog (run c02Prog c02Ops) 1 = 2 ∧
-    allEffectsCurrent c02Prog (run c02Prog c02Ops) = false := by decide +kernel
+    ready (runOld c02Prog c02Ops) = [] ∧
+    ((runOld c02Prog c02Ops).get 3).seen.map (fun t => (t.1, t.2.1)) = [(2, 0), (1, 1)] ∧
+    specVal c02Prog (runOld c02Prog c02Ops) 1 = 2 ∧
+    allEffectsCurrent c02Prog (runOld c02Prog c02Ops) = false ∧
+    ready (run c02Prog c02Ops) = [] ∧ allEffectsCurrent c02Prog (run c02Prog c02Ops) = true := by decide +kernel
 
-theorem C02_effects_converge_full_false : ¬ C02_effects_converge_full := by
+/-- the full statement about the OLD code is false (regression witness) -/
+def C02_effects_converge_full_old : Prop :=
+  ∀ (p : Prog) (ops : List Op), WF p = true → progNoUntracked p = true →
+    ready (runOld p ops) = [] → allEffectsCurrent p (runOld p ops) = true
+
+theorem C02_effects_converge_full_old_false : ¬ C02_effects_converge_full_old := by
   intro h
   have w := C02_lost_update_witness
   have := h c02Prog c02Ops w.1 w.2.1 w.2.2.1
   rw [this] at w
-  exact absurd w.2.2.2.2.2 (by decide)
+  exact absurd w.2.2.2.2.2.1 (by decide)
+
+def opsNoLifecycle (ops : List Op) : Bool :=
+  ops.all fun o => match o with | .pause _ => false | .resume _ => false | .dispose _ => false | _ => true
+
+/-- the statement to prove about the repaired code: histories of writes, reads and polls (no pause/dispose) -/
+def C02_effects_converge_stmt : Prop :=
+  ∀ (p : Prog) (ops : List Op), WF p = true → progNoUntracked p = true → opsNoLifecycle ops = true →
+    ready (run p ops) = [] → allEffectsCurrent p (run p ops) = true
 
 end Leptos.Reactive
